@@ -85,6 +85,29 @@ func init() {
 				}
 			}
 		}
+		c.Phase("extreme-amounts") // one output close to 2^64-1: outputs exceed inputs, the predicates must say false
+		n = 0
+		for _, basis := range []string{"actual", "estimate"} {
+			for _, dv := range []uint64{0, 1, 50, 106, 500, 5000, 1 << 20, 1 << 40} {
+				for k := 0; k < 6; k++ {
+					n++
+					if !c.Case(n) {
+						continue
+					}
+					r := c.Rand(n)
+					in := c11MakeRelation(r, "ample", basis, randQuote(r))
+					if in == nil || len(in.Tx.Outs) == 0 {
+						continue
+					}
+					o := in.Tx.Outs[0]
+					o.Repeat = 0
+					o.Sats = ^uint64(0) - dv
+					in.Tx.Outs = []mOuts{o}
+					in.Rel, in.Class = "in<out", "extreme-amounts"
+					judge(c, in)
+				}
+			}
+		}
 		c.Phase("sign")
 		keys, per := uint64(200), uint64(40)
 		if c.Thorough {
